@@ -127,7 +127,7 @@ def compare(c, c2, fmt):
     if fmt in ("cif", "cifdata"):
         o1 = np.asarray(c.asymmetric_unit.properties.get("occupation"), dtype=float)
         o2 = np.asarray(c2.asymmetric_unit.properties.get("occupation"), dtype=float)
-        if o1.shape != o2.shape or not np.allclose(o1, o2, atol=1e-12):
+        if o1.shape != o2.shape or not np.allclose(o1, o2, rtol=0, atol=1e-12):
             return f"occupancies {o2.tolist()} != {o1.tolist()}"
     return None
 
